@@ -796,10 +796,8 @@ func c04ParamOfAlloc(a *ssa.Alloc) *ssa.Parameter {
 			}
 			par = p
 		case *ssa.FieldAddr:
-			for _, fr := range c04RealRefs(x) {
-				if u, ok := fr.(*ssa.UnOp); !ok || u.Op != token.MUL {
-					return nil
-				}
+			if !c04OnlyLoaded(x, 0) {
+				return nil
 			}
 		case *ssa.UnOp:
 		default:
@@ -807,6 +805,40 @@ func c04ParamOfAlloc(a *ssa.Alloc) *ssa.Parameter {
 		}
 	}
 	return par
+}
+
+// c04OnlyLoaded: the field address (and the addresses of its sub-fields) is only read.
+func c04OnlyLoaded(fa *ssa.FieldAddr, depth int) bool {
+	for _, fr := range c04RealRefs(fa) {
+		switch y := fr.(type) {
+		case *ssa.UnOp:
+			if y.Op != token.MUL {
+				return false
+			}
+		case *ssa.FieldAddr:
+			if depth > 4 || !c04OnlyLoaded(y, depth+1) {
+				return false
+			}
+		default:
+			return false
+		}
+	}
+	return true
+}
+
+// c04AddrPath: a chain of field addresses x.a.b.c down to its base, with the dotted field path.
+func c04AddrPath(fa *ssa.FieldAddr) (ssa.Value, string) {
+	path := fieldIDOfAddr(fa).Field
+	base := fa.X
+	for i := 0; i < 6; i++ {
+		in, ok := base.(*ssa.FieldAddr)
+		if !ok {
+			break
+		}
+		path = fieldIDOfAddr(in).Field + "." + path
+		base = in.X
+	}
+	return base, path
 }
 
 // c04Virt stands for a value the function never materialises (a field of a
@@ -828,20 +860,33 @@ func (pv *c04Prover) key(v ssa.Value) string {
 	case *ssa.UnOp:
 		if x.Op == token.MUL {
 			if fa, ok := x.X.(*ssa.FieldAddr); ok {
-				if g, ok := fa.X.(*ssa.Global); ok {
+				base, path := c04AddrPath(fa)
+				if g, ok := base.(*ssa.Global); ok {
 					// a field of a package-level table (the tables are constants of the program)
-					return "param:@" + g.Name() + "." + fieldIDOfAddr(fa).Field
+					return "param:@" + g.Name() + "." + path
 				}
-				if a, ok := fa.X.(*ssa.Alloc); ok {
+				if a, ok := base.(*ssa.Alloc); ok {
 					if par := c04ParamOfAlloc(a); par != nil {
-						return "param:" + par.Name() + "." + fieldIDOfAddr(fa).Field
+						return "param:" + par.Name() + "." + path
 					}
+					// a field of a local struct variable (callers check that it is not rewritten in between)
+					return fmt.Sprintf("local:%p.%s", a, path)
 				}
 			}
 		}
 	case *ssa.Field:
-		if par, ok := x.X.(*ssa.Parameter); ok {
-			return "param:" + par.Name() + "." + fieldIDOfField(x).Field
+		path := fieldIDOfField(x).Field
+		base := x.X
+		for i := 0; i < 6; i++ {
+			in, ok := base.(*ssa.Field)
+			if !ok {
+				break
+			}
+			path = fieldIDOfField(in).Field + "." + path
+			base = in.X
+		}
+		if par, ok := base.(*ssa.Parameter); ok {
+			return "param:" + par.Name() + "." + path
 		}
 	}
 	return fmt.Sprintf("val:%p", v)
@@ -1077,17 +1122,34 @@ func (pv *c04Prover) holds(op token.Token, x, y ssa.Value, conds []DomCond, dept
 // c04RangeFacts checks one call sink(start, end, step) inside fn. bpar is the
 // bounds-typed parameter of fn (nil if none).
 func c04RangeFacts(p *Prog, r *Report, rule string, fn *ssa.Function, call *ssa.Call, ordinal int, bpar *ssa.Parameter, minF, maxF string) {
-	fname := FuncName(p, fn)
-	base := fmt.Sprintf("%s %s#%d", fname, c04CalleeName(call), ordinal)
-	pos := p.Pos(instrPos(call))
+	base := fmt.Sprintf("%s %s#%d", FuncName(p, fn), c04CalleeName(call), ordinal)
 	if len(call.Call.Args) != 3 {
 		r.Undecide("%s: the bit-set builder no longer takes (min, max, step)", base)
 		return
 	}
-	a0, a1, a2 := call.Call.Args[0], call.Call.Args[1], call.Call.Args[2]
-	pv := &c04Prover{fn: fn, InModule: p.InModule}
-	conds := c04DomConds(call.Block())
-	zero := ssa.NewConst(constant.MakeInt64(0), a2.Type())
+	c04RangeFactsAt(p, r, rule, fn, call, base, c04CalleeName(call), call.Call.Args[0], call.Call.Args[1], call.Call.Args[2], bpar, minF, maxF)
+}
+
+// c04RangeFactsAt: the four facts at site `at` of fn for the values a0, a1, a2
+// (the builder's arguments, or the struct fields a helper will hand to it).
+func c04RangeFactsAt(p *Prog, r *Report, rule string, fn *ssa.Function, at ssa.Instruction, base, sinkName string, a0, a1, a2 ssa.Value, bpar *ssa.Parameter, minF, maxF string) {
+	pos := p.Pos(instrPos(at))
+	for _, av := range []ssa.Value{a0, a1, a2} {
+		if la, _, ok := c04LocalField(av); ok && !c04LocalStable(la, at) {
+			r.Undecide("%s: the local struct holding the range is written again between its validation and the call", base)
+			return
+		}
+	}
+	pv := &c04Prover{fn: fn, InModule: c04InMod(p)}
+	conds := c04DomConds(at.Block())
+	zeroT := a2.Type
+	_ = zeroT
+	var zero ssa.Value
+	if _, virt := a2.(*c04Virt); virt {
+		zero = ssa.NewConst(constant.MakeInt64(0), types.Typ[types.Uint])
+	} else {
+		zero = ssa.NewConst(constant.MakeInt64(0), a2.Type())
+	}
 	type ob struct {
 		what string
 		ok   bool
@@ -1155,7 +1217,7 @@ func c04RangeFacts(p *Prog, r *Report, rule string, fn *ssa.Function, call *ssa.
 		case helper != "":
 			r.Undecide("%s: not established locally; the call is guarded by %s which receives the value", construct, helper)
 		default:
-			r.Violation(rule, construct, pos, "'"+o.what+"' is not established on every path to "+c04CalleeName(call)+": "+o.msg)
+			r.Violation(rule, construct, pos, "'"+o.what+"' is not established on every path to "+sinkName+": "+o.msg)
 		}
 	}
 }
@@ -1169,6 +1231,7 @@ func (st *c04State) parserFuncs() []*ssa.Function {
 	roots := []string{"Parser.Parse", "ParseStandard"}
 	var out []*ssa.Function
 	seen := map[*ssa.Function]bool{}
+	tgt := newC04TermBuilder(p)
 	var add func(f *ssa.Function)
 	add = func(f *ssa.Function) {
 		if f == nil || seen[f] || f.Pkg == nil || f.Pkg.Pkg.Path() != st.pkgPath {
@@ -1182,8 +1245,15 @@ func (st *c04State) parserFuncs() []*ssa.Function {
 		// helpers extracted from the parser functions belong to the layer too
 		allInstrs(f, func(in ssa.Instruction) {
 			if c, ok := in.(ssa.CallInstruction); ok {
-				if cal := staticCallee(c); cal != nil && p.InModule(cal) && cal.Parent() == nil {
+				if cal := staticCallee(c); cal != nil && c04Enterable(p, cal) && cal.Parent() == nil {
 					add(cal)
+				} else if cal == nil {
+					// calls through function values / single-implementation interfaces
+					for _, t := range tgt.Targets(c) {
+						if c04Enterable(p, t) {
+							add(t)
+						}
+					}
 				}
 			}
 		})
@@ -1229,6 +1299,13 @@ func (st *c04State) checkRange() {
 			}
 			ord++
 			n++
+			if bpar == nil && len(call.Call.Args) == 3 {
+				// the builder is called by a helper with (fields of) its own parameters: the
+				// obligations move to the helper's call sites, where the values are established
+				if st.liftRangeSink(fn, call, ord, nstepDoc) {
+					return
+				}
+			}
 			c04RangeFacts(p, r, "C04.P4-range", fn, call, ord, bpar, st.minF, st.maxF)
 			if nstepDoc {
 				c04NStepRule(p, r, "C04.P5-nstep", fn, call, ord, bpar, st.minF, st.maxF)
@@ -1250,6 +1327,133 @@ func (st *c04State) checkRange() {
 			}
 		})
 	}
+}
+
+// liftRangeSink: the builder call `call` in helper fn takes fields of one struct
+// parameter of fn (a value grouping start/end/step). The four range facts and the
+// N/step rule are then checked at every call site of fn, on the fields of the
+// local struct handed over. Returns false if the shape does not apply.
+func (st *c04State) liftRangeSink(fn *ssa.Function, call *ssa.Call, ord int, nstepDoc bool) bool {
+	p, r := st.p, st.r
+	pv := &c04Prover{fn: fn}
+	var pname string
+	var fields [3]string
+	for i, a := range call.Call.Args {
+		k := pv.key(a)
+		if !strings.HasPrefix(k, "param:") || strings.HasPrefix(k, "param:@") {
+			return false
+		}
+		dot := strings.LastIndex(k, ".")
+		pn, fld := k[len("param:"):dot], k[dot+1:]
+		if pname != "" && pn != pname {
+			return false
+		}
+		pname, fields[i] = pn, fld
+	}
+	pidx := -1
+	for i, par := range fn.Params {
+		if par.Name() == pname {
+			pidx = i
+		}
+	}
+	if pidx < 0 {
+		return false
+	}
+	stt, ok := deref(fn.Params[pidx].Type()).Underlying().(*types.Struct)
+	if !ok {
+		return false
+	}
+	fidx := func(name string) int {
+		for i := 0; i < stt.NumFields(); i++ {
+			if stt.Field(i).Name() == name {
+				return i
+			}
+		}
+		return -1
+	}
+	// the helper must hand the fields on unchanged: no store to the parameter copy's fields
+	nSites := 0
+	for _, g := range p.FuncsOfPkg("cron") {
+		var gb *ssa.Parameter
+		for _, par := range g.Params {
+			if namedKey(par.Type()) == st.boundsKey {
+				if _, isPtr := par.Type().Underlying().(*types.Pointer); !isPtr {
+					gb = par
+				}
+			}
+		}
+		k := 0
+		allInstrs(g, func(in ssa.Instruction) {
+			cs, ok := in.(*ssa.Call)
+			if !ok || staticCallee(cs) != fn || pidx >= len(cs.Call.Args) {
+				return
+			}
+			k++
+			nSites++
+			base := fmt.Sprintf("%s -> %s#%d %s#%d", FuncName(p, g), fn.Name(), k, c04CalleeName(call), ord)
+			var a *ssa.Alloc
+			switch x := cs.Call.Args[pidx].(type) {
+			case *ssa.Alloc:
+				a = x
+			case *ssa.UnOp:
+				if x.Op == token.MUL {
+					a, _ = x.X.(*ssa.Alloc)
+				}
+			}
+			if a == nil || c04ParamOfAlloc(a) != nil {
+				r.Undecide("%s: the struct handed to %s is not a local variable of the caller", base, fn.Name())
+				return
+			}
+			unstable := !c04LocalStable(a, cs)
+			if unstable {
+				r.Undecide("%s: the struct is written again between the validation and the call", base)
+				return
+			}
+			v := func(f string) ssa.Value { return &c04Virt{k: fmt.Sprintf("local:%p.%s", a, f)} }
+			c04RangeFactsAt(p, r, "C04.P4-range", g, cs, base, fn.Name()+" -> "+c04CalleeName(call), v(fields[0]), v(fields[1]), v(fields[2]), gb, st.minF, st.maxF)
+			if nstepDoc {
+				i0, i1, i2 := fidx(fields[0]), fidx(fields[1]), fidx(fields[2])
+				c04NStepRuleAt(p, r, "C04.P5-nstep", g, cs, base+": N/step extends to max", func(pa *c04Path) (ssa.Value, ssa.Value, ssa.Value) {
+					return pa.fieldAt(a, i0, cs), pa.fieldAt(a, i1, cs), pa.fieldAt(a, i2, cs)
+				}, gb, st.minF, st.maxF)
+			}
+		})
+	}
+	if nSites == 0 {
+		r.Undecide("%s calls the bit-set builder with fields of its parameter %s, but no call of %s was found", FuncName(p, fn), pname, fn.Name())
+	}
+	return true
+}
+
+// c04LocalStable: no field of local struct a is written between a dominating
+// test of `at` that reads a field of a and `at` itself.
+func c04LocalStable(a *ssa.Alloc, at ssa.Instruction) bool {
+	for _, dc := range c04DomConds(at.Block()) {
+		ci, ok := dc.If.Cond.(ssa.Instruction)
+		if !ok {
+			continue
+		}
+		reads := false
+		var ops []*ssa.Value
+		for _, op := range ci.Operands(ops) {
+			if la, _, ok := c04LocalField(*op); ok && la == a {
+				reads = true
+			}
+		}
+		if !reads {
+			continue
+		}
+		for _, ref := range c04RealRefs(a) {
+			if fa, ok := ref.(*ssa.FieldAddr); ok {
+				for _, r2 := range c04RealRefs(fa) {
+					if s2, ok := r2.(*ssa.Store); ok && s2.Addr == ssa.Value(fa) && c04Reach(ci, s2) && c04Reach(s2, at) {
+						return false
+					}
+				}
+			}
+		}
+	}
+	return true
 }
 
 func (st *c04State) checkCount() {
